@@ -265,6 +265,12 @@ func visitInstr(fr *frame, instr ssa.Instruction) continuation {
 		panic(unsupported("channel send"))
 
 	case *ssa.Store:
+		if sp, ok := fr.get(instr.Addr).(symElemPtr); ok {
+			j := fr.i.concretizeIndex(sp.idx, len(sp.arr), "array")
+			fr.i.noteStore(&sp.arr[j])
+			sp.arr[j] = fr.get(instr.Val)
+			break
+		}
 		addr := fr.get(instr.Addr).(*value)
 		if addr == nil {
 			fr.i.throwNilDeref()
@@ -367,6 +373,15 @@ func visitInstr(fr *frame, instr ssa.Instruction) continuation {
 				fr.i.throwNilDeref()
 			}
 			a := (*x).(array)
+			if sidx, ok := idx.(sym); ok && len(a) >= 16 && allConcreteScalars(a) {
+				// constant lookup table indexed symbolically: keep the
+				// index symbolic, the load becomes an if-then-else chain
+				if !fr.i.obligation(indexInRangeTerm(sidx, len(a))) {
+					fr.i.throwRuntime(fmt.Sprintf("runtime error: index out of range [symbolic] with length %d", len(a)))
+				}
+				fr.env[instr] = symElemPtr{arr: a, idx: sidx}
+				break
+			}
 			fr.env[instr] = &a[fr.i.concretizeIndex(idx, len(a), "array")]
 		default:
 			panic(fmt.Sprintf("unexpected x type in IndexAddr: %T", x))
@@ -600,6 +615,9 @@ func runFrame(fr *frame) {
 		nonPhis := executePhis(fr)
 		for _, instr := range nonPhis {
 			ps.steps++
+			if ps.steps&0x3fff == 0 && fr.i.eng.pastDeadline() {
+				panic(pathAbort{kind: abortStopped, msg: "deadline"})
+			}
 			if ps.steps > max {
 				panic(pathAbort{kind: abortBudget, msg: fmt.Sprintf("instruction budget (%d) exhausted", max)})
 			}
